@@ -38,9 +38,9 @@ def _evolve_case(seed, i):
 
     out = dict(hits={}, viol=[], inc=[], ok=0)
     scheme = ["POLE", "MSBAR", "POLE", "MSBAR-mm"][i % 4]
-    tform = ["none", "list", "xgrid", "none", "list"][(i // 4 + i) % 5]
-    install = bool((i // 3) % 4 == 0)
-    pathform = ["file", "dir"][(i // 2) % 2]
+    tform = ["none", "list", "xgrid", "none", "list"][(i // 4) % 5]  # independent of the scheme (i % 4)
+    install = bool((i // 20) % 3 == 0)
+    pathform = ["file", "dir"][(i // 20 + i // 4) % 2]
     real_solve = i % 40 == 7
     order = (int(rng.choice([1, 2, 2, 3, 4])), 0)
     method = str(rng.choice(["iterate-exact", "iterate-exact", "truncated", "iterate-expanded"]))
